@@ -100,24 +100,38 @@ func main() {
 	cross := flag.String("cross", "", "extra solvers (fresh process) tried when the whole portfolio says unknown")
 	timeout := flag.Int("timeout-ms", 20000, "per-query solver timeout")
 	verbose := flag.Bool("v", false, "verbose")
+	params := flag.String("params", "", "comma-separated name=int harness parameters (verifParam)")
+	maxTime := flag.Int("max-time", 0, "stop exploring after this many seconds (result is then inconclusive)")
 	ignoreGo := flag.Bool("ignore-go", false, "ignore go statements instead of ending the path")
 	pin := flag.String("pin", "", "json file name→value pinning nondet values (concrete run)")
 	overrides := flag.String("override", "", "comma-separated from=to function overrides")
 	tags := flag.String("tags", "verif", "build tags")
 	flag.Parse()
 
-	res := &Result{Package: *pkgPath, Entry: *entry, Solver: *solver}
+	res := &Result{Package: *pkgPath, Entry: *entry, Solver: *solver, Bounds: map[string]interface{}{}}
 	start := time.Now()
 
 	cfg := &Config{Unwind: *unwind, MaxSteps: *maxSteps, MaxAlloc: *maxAlloc, MaxPaths: *maxPaths, MaxDepth: *maxDepth,
 		MaxValues: *maxValues, Workers: *workers, Solver: *solver, TimeoutMs: *timeout, Verbose: *verbose, IgnoreGo: *ignoreGo,
-		Overrides: map[string]string{}}
+		Overrides: map[string]string{}, MaxTimeS: *maxTime}
 	if *cross != "" {
 		for _, c := range strings.Split(*cross, ",") {
 			if c != *solver {
 				cfg.CrossSolver = append(cfg.CrossSolver, c)
 			}
 		}
+	}
+	cfg.Params = map[string]int64{}
+	if *params != "" {
+		for _, kv := range strings.Split(*params, ",") {
+			p := strings.SplitN(kv, "=", 2)
+			if len(p) == 2 {
+				var v int64
+				fmt.Sscan(p[1], &v)
+				cfg.Params[p[0]] = v
+			}
+		}
+		res.Bounds["params"] = *params
 	}
 	if *overrides != "" {
 		for _, kv := range strings.Split(*overrides, ",") {
@@ -145,8 +159,10 @@ func main() {
 			cfg.Pin[k] = bi
 		}
 	}
-	res.Bounds = map[string]interface{}{"unwind": *unwind, "max_paths": *maxPaths, "max_depth": *maxDepth, "max_values": *maxValues,
-		"max_steps": *maxSteps, "query_timeout_ms": *timeout}
+	for k, v := range map[string]interface{}{"unwind": *unwind, "max_paths": *maxPaths, "max_depth": *maxDepth, "max_values": *maxValues,
+		"max_steps": *maxSteps, "query_timeout_ms": *timeout} {
+		res.Bounds[k] = v
+	}
 
 	// scratch modfile so that go never rewrites /repo/go.mod
 	scratch, err := os.MkdirTemp("", "gosym-mod-")
@@ -249,7 +265,7 @@ func main() {
 	res.WallS = time.Since(start).Seconds()
 
 	// verdict
-	for _, k := range []string{"unsupported", "unwind", "steps", "internal", "solver-error", "feasibility-unknown", "path-budget"} {
+	for _, k := range []string{"unsupported", "unwind", "steps", "internal", "solver-error", "feasibility-unknown", "path-budget", "time-budget", "time"} {
 		if ex.Ended[k] > 0 {
 			res.Inconclusive = append(res.Inconclusive, fmt.Sprintf("%s×%d", k, ex.Ended[k]))
 		}
